@@ -213,7 +213,30 @@ func apiDoorGrow(tr *kTrace, id string, salt int64) {
 			}
 		}
 	}
-	tr.emit(map[string]any{"ev": "adoor", "id": id, "keys": n, "resident": resident, "refused": refused, "first": first})
+	// ... and a Delete of a key the cache holds removes it, whatever the filters remember of it
+	undeleted := 0
+	gone := map[int]bool{}
+	for k := 1; k <= n; k += 3 {
+		if _, ok := c.Get(k); !ok {
+			continue
+		}
+		c.Delete(k)
+		gone[k] = true
+		if _, ok := c.Get(k); ok {
+			undeleted++
+			if len(first) < 8 {
+				first = append(first, -k)
+			}
+		}
+	}
+	c.Wait()
+	c.Range(func(k, v int) bool {
+		if gone[k] {
+			undeleted++
+		}
+		return true
+	})
+	tr.emit(map[string]any{"ev": "adoor", "id": id, "keys": n, "resident": resident, "refused": refused, "undeleted": undeleted, "first": first})
 }
 
 func TestVerif_Api(t *testing.T) {
